@@ -720,3 +720,48 @@ def init_contracts():
 init_contracts_ = init_contracts()
 CONTRACTS += init_contracts_
 CALLEES["thejoker.utils._pytensor_get_mean_std"] = mean_std_callee
+
+
+# ---- utils._pytensor_get_mean_std itself (it is only a callee above): the prior's mean and standard deviation, declared in `in_unit`, come back
+# as numbers in `out_unit` with the physical values unchanged - on both branches of the pytensor version switch --------------------------------------
+def _ms_dist(ex, path, name):
+    mean, std = z3.Real("prior_mean"), z3.Real("prior_std")
+    ev = lambda v: Obj("TensorConstant", {"value": v})
+    params = PyList([ev(mean), ev(std)], None, True)
+    op = Obj("Op", {"params": params})
+    owner = Obj("Apply", {"op": op, "inputs": PyList([Opaque("rng"), Opaque("size"), Opaque("dtype"), ev(mean), ev(std)], None, False)})
+    return Obj("TensorVariable", {"owner": owner, "mean": mean, "std": std}, ident="dist")
+
+
+@model("Op.dist_params", doc="pytensor >= 2.23: op.dist_params(node) returns the distribution parameters (mu, sigma) of a Normal-family variable")
+def _dist_params(ex, path, args, kwargs, node, fn):
+    return args[0].fields["params"]
+
+
+@model("TensorConstant.eval", doc=".eval() of a constant parameter: its value")
+def _tc_eval(ex, path, args, kwargs, node, fn):
+    return args[0].fields["value"]
+
+
+@model("packaging.version.Version", "thejoker.utils.Version", "Version", doc="Version(x): compared only with >=; which side of the switch is taken is arbitrary")
+def _version(ex, path, args, kwargs, node, fn):
+    o = Obj("Version", {})
+    o.fields["__cmp__"] = lambda op, a, b: z3.Bool("pytensor_version_at_least_2_23")
+    return o
+
+
+def _unit_param(nm):
+    def build(ex, path, name):
+        u_ = A.sym_unit(nm, SPEED)
+        path.assume(*u_.sym_facts)
+        return u_
+    return build
+
+
+mean_std = Contract("thejoker.utils._pytensor_get_mean_std", "C07",
+                    params={"dist": _ms_dist, "in_unit": _unit_param("declared_unit"), "out_unit": _unit_param("wanted_unit")},
+                    ensures={"mean-converted-with-the-physical-value-unchanged": "result[0] * out_unit.scale == dist.mean * in_unit.scale",
+                             "standard-deviation-converted-with-the-physical-value-unchanged": "result[1] * out_unit.scale == dist.std * in_unit.scale"},
+                    cover=["True"])
+mean_std.lib = {"Op.dist_params": _dist_params, "TensorConstant.eval": _tc_eval, "packaging.version.Version": _version, "thejoker.utils.Version": _version,
+                "Version": _version, "pytensor.__version__": "2.x"}
